@@ -170,7 +170,7 @@ def parse_verus_stderr(err, lines):
             cand_lines.append(int(mm.group(1)))
         for cl in cand_lines:
             if cl and cl - 1 < len(lines):
-                t = re.search(r'// @(obl|inv|thm) (\S+)', lines[cl - 1])
+                t = re.search(r'// @(obl|inv|thm|probe) (\S+)', lines[cl - 1])
                 if t:
                     tag = t.group(2)
                     break
@@ -265,6 +265,9 @@ class Plan:
 
     def add_unit(self, name, u, tops):
         text = u.render(prelude.prelude_text(), tops)
+        bu = ' '.join(u.module_prologue)
+        probe = ('// @fn vacuity_probe\npub fn vacuity_probe_fn() { %s\n    assert(false); // @probe vacuity\n}\n' % bu)
+        text = text.replace('\n} // verus!\nfn main() {}', '\n' + probe + '\n} // verus!\nfn main() {}')
         tags = re.findall(r'// @(?:obl|inv|thm) (\S+)', text)
         self.vunits.append(dict(name=name, text=text, tags=tags, functions=list(u.functions),
                                 assumed=list(u.assumed)))
@@ -324,6 +327,14 @@ def execute(prop, plan, tier, seed, expinfo, t_start):
                 undecided.append('%s: verus did not complete: %s' % (vu['name'], r['stderr'][-1500:]))
             continue
         failed_tags = set()
+        probe_failed = any(f['tag'] == 'vacuity' for f in r['fails'])
+        r['fails'] = [f for f in r['fails'] if f['tag'] != 'vacuity']
+        if '@probe vacuity' in vu['text']:
+            if probe_failed:
+                vac.append(dict(unit=vu['name'], probe='assert(false) fails as required (ambient axioms are not contradictory)'))
+                r['errors'] -= 1
+            else:
+                undecided.append('%s: vacuity probe assert(false) did NOT fail: ambient axioms are contradictory' % vu['name'])
         for f in r['fails']:
             failed_tags.add(f['tag'])
             violations.append(dict(tag=f['tag'], backend='verus', kind=f['kind'], fn=f['fn'], unit=vu['name'],
